@@ -17,7 +17,7 @@ LEVEL_NOTE = ("Trusted: the insert-only alignment (bounded backtracking) accepts
 RULE = ("case = (a) generated tree, sizes tiny/8K/64K/256K, CRLF and multi-byte variants, or (b) 1-4 corpus files, some with "
         "UTF-8-preserving mutations; one edit run with 0-6 benign faults (short on n-th READ/WRITE, EINTR on n-th READ/WRITE/OPEN). "
         "Non-trivial = at least one token inserted; distinct = case index.")
-PROBES = ["hard_fault_run", "non_utf8_source", "id_range_runs_out", "bom_file", "short_write_retried", "short_read_retried", "eintr_retried", "multi_drain", "crlf_file", "corpus_world", "mutated_corpus",
+PROBES = ["file_17mb", "hard_fault_run", "non_utf8_source", "id_range_runs_out", "bom_file", "short_write_retried", "short_read_retried", "eintr_retried", "multi_drain", "crlf_file", "corpus_world", "mutated_corpus",
           "large_file_256k", "existing_refs_present"]
 ASSUMPTIONS = ["no fault other than short counts / EINTR is injected here (strict equality otherwise)"]
 DEADLINE = {"quick": 200, "thorough": 3000}
@@ -102,6 +102,18 @@ def gen(rng):
     wm["extra"]["proj/src/data.rsx"] = {"t": "f", "mode": 0o600, "data": b"warn!(\"other ext\");\n"}
     knobs = {"threads": rng.randrange(1, 5), "config_arg": rng.choice(["rel", "abs"])}
     knobs = scen.env_knobs(rng, knobs)
+    if rng.random() < 0.002:
+        # one really big generated file (17 MB: beyond any "reasonable" read limit somebody might think of)
+        wm = world.gen_world_model(rng, use_cache=rng.choice([False, None]), nfiles=2, sizes=["tiny"], p_have=0.4, max_stmts=3, min_missing=1,
+                                   custom_macros_p=0.0, id_hi=60)
+        first = sorted(wm["files"])[0]
+        g = world.Gen(rng)
+        g.n = wm.get("nmark", 0) + 100
+        wm["files"][first] = g.source_file(bool(wm["cfg"].get("structured")), 3, "m17", [None, 77, None])
+        wm["nmark"] = g.n
+        knobs["timeout"] = 240
+        knobs.pop("jitter_us", None)
+        tags = {"file_17mb"}
     plan = {"seed": rng.getrandbits(48) | 1, "perm": True, "faults": benign_plan(rng)}
     return wm, knobs, plan, tags
 
